@@ -168,12 +168,11 @@ func (c *ExpressionParser) addTokenToResult(typ int, value *variants.Variant, li
 //   - types: A list of token types to compare.
 // Returns: <code>true</code> if token types match.
 func (c *ExpressionParser) matchTokensWithTypes(types ...int) bool {
-	matches := false
+	matches := len(types) > 0
 
 	for i, typ := range types {
-		if c.currentTokenIndex+i < len(c.initialTokens) {
-			matches = c.initialTokens[c.currentTokenIndex+i].Type() == typ
-		} else {
+		if c.currentTokenIndex+i >= len(c.initialTokens) ||
+			c.initialTokens[c.currentTokenIndex+i].Type() != typ {
 			matches = false
 			break
 		}
